@@ -11,6 +11,7 @@ Everything here is semantics-preserving on the accepted subset and FAIL-CLOSED o
         are canonicalised recursively).  The print order is fixed by a rank on atoms (locals in binding order,
         then parameters in declaration order / the order given by the caller, then variable-free atoms, then
         constants); it is chosen so that the spelling of the pinned source is its own canonical form.
+        `max`/`min` of two ints print their arguments in rank order.
         Integer comparisons are oriented by the same rank (`N > n` prints as `n < N`), chains `0 <= n < N`
         and `and`-nests are flattened, `not` is pushed through and/or onto integer comparisons (De Morgan),
         and `if not c: A else: B` is read as `if c: B else: A`.
@@ -165,6 +166,16 @@ class CanonExpr(T.Expr):
             return None
         rs = [self.rank(n) for n in self._names(e)]
         return Poly.atom(min(rs) if rs else (2, 0), s)
+
+    def e_Call(self, e):
+        # max / min of two ints are commutative: print the arguments in rank order (`max(0, d)` = `max(d, 0)`)
+        if isinstance(e.func, ast.Name) and e.func.id in ("max", "min") and len(e.args) == 2 and not e.keywords:
+            ops = [self.operand(a) for a in e.args]
+            if all(o is not None for o in ops):
+                txt = [self.tr(a)[0] for a in e.args]
+                order = sorted(range(2), key=lambda k: (ops[k].key(), txt[k]))
+                return ("(py%s %s %s)" % (e.func.id.capitalize(), txt[order[0]], txt[order[1]]), INT)
+        return super().e_Call(e)
 
     def tr(self, e):
         if isinstance(e, (ast.BinOp, ast.UnaryOp)):
